@@ -443,16 +443,29 @@ pub fn run_scenario(sc: &Value) -> Value {
         })
     };
     let ops: Vec<Value> = sc["ops"].as_array().unwrap().clone();
-    let results = std::panic::catch_unwind(std::panic::AssertUnwindSafe(|| {
-        if flavor == "tokio" {
-            let rt = tokio::runtime::Builder::new_multi_thread().worker_threads(2).enable_all().build().unwrap();
-            let r = rt.block_on(run_tokio(&ops, port, timeout));
-            rt.shutdown_timeout(Duration::from_millis(500));
-            r
-        } else {
-            run_sync(&ops, port, timeout)
-        }
-    }));
+    // the client runs under a watchdog: a hang (endless wait / busy loop) is an observation, not a hung check
+    let hang_ms = sc["hang_ms"].as_u64().unwrap_or(20000);
+    let (tx, rx) = std::sync::mpsc::channel();
+    {
+        let flavor = flavor.clone();
+        std::thread::spawn(move || {
+            let results = std::panic::catch_unwind(std::panic::AssertUnwindSafe(|| {
+                if flavor == "tokio" {
+                    let rt = tokio::runtime::Builder::new_multi_thread().worker_threads(2).enable_all().build().unwrap();
+                    let r = rt.block_on(run_tokio(&ops, port, timeout));
+                    rt.shutdown_timeout(Duration::from_millis(500));
+                    r
+                } else {
+                    run_sync(&ops, port, timeout)
+                }
+            }));
+            let _ = tx.send(results);
+        });
+    }
+    let (results, hung) = match rx.recv_timeout(Duration::from_millis(hang_ms)) {
+        Ok(r) => (r, false),
+        Err(_) => (Ok(vec![]), true),
+    };
     // give the acceptor a moment to pick up connections opened late (pool workers)
     std::thread::sleep(Duration::from_millis(sc["linger_ms"].as_u64().unwrap_or(2)));
     stop.store(true, std::sync::atomic::Ordering::SeqCst);
@@ -467,7 +480,7 @@ pub fn run_scenario(sc: &Value) -> Value {
         .collect();
     json!({
         "id": sc["id"],
-        "results": match results { Ok(r) => json!(r), Err(_) => json!("PANIC") },
+        "results": if hung { json!("HANG") } else { match results { Ok(r) => json!(r), Err(_) => json!("PANIC") } },
         "servers": servers,
         "extra_connections": extra.load(std::sync::atomic::Ordering::SeqCst),
     })
